@@ -152,8 +152,9 @@ func oracle(c Case) vkit.Outcome {
 		sent = fmt.Sprintf(`{"rows":[{"k":%d,"v":%s}],"count":1}`, key, c.Value)
 		w = do("PUT", rowsPath, sent)
 	case "update":
-		// a placeholder row first (v absent -> NULL), then the value by PATCH
-		if p := do("PUT", rowsPath, fmt.Sprintf(`{"k":%d}`, key)); p.Status >= 300 || p.Panic != nil {
+		// a placeholder row first (the server wants every column in an insert),
+		// then the value by PATCH
+		if p := do("PUT", rowsPath, fmt.Sprintf(`{"k":%d,"v":%s}`, key, placeholder(c.Type))); p.Status >= 300 || p.Panic != nil {
 			out.Skip = "placeholder-insert-refused"
 			return out
 		}
@@ -238,6 +239,18 @@ func sigClass(c Case) string {
 		}
 	}
 	return c.Class
+}
+
+func placeholder(ty string) string {
+	switch ty {
+	case "bool":
+		return "false"
+	case "string":
+		return `"placeholder"`
+	case "timestamp", "date", "time":
+		return `"2000-01-01T00:00:00Z"`
+	}
+	return "0"
 }
 
 func nonTrivial(c Case) bool {
